@@ -108,7 +108,11 @@ static size_t ZSTD_DDictHashSet_emplaceDDict(ZSTD_DDictHashSet* hashSet, const Z
     const size_t idxRangeMask = hashSet->ddictPtrTableSize - 1;
     RETURN_ERROR_IF(hashSet->ddictPtrCount == hashSet->ddictPtrTableSize, GENERIC, "Hash set is full!");
     DEBUGLOG(4, "Hashed index: for dictID: %u is %zu", dictID, idx);
-    while (hashSet->ddictPtrTable[idx] != NULL) {
+    while (hashSet->ddictPtrTable[idx] != NULL)
+    ZSTD_VERIF_LOOP(
+        __CPROVER_assigns(idx, __CPROVER_object_whole(hashSet->ddictPtrTable))
+        __CPROVER_loop_invariant(idx < hashSet->ddictPtrTableSize))
+    {
         /* Replace existing ddict if inserting ddict with same dictID */
         if (ZSTD_getDictID_fromDDict(hashSet->ddictPtrTable[idx]) == dictID) {
             DEBUGLOG(4, "DictID already exists, replacing rather than adding");
@@ -140,7 +144,13 @@ static size_t ZSTD_DDictHashSet_expand(ZSTD_DDictHashSet* hashSet, ZSTD_customMe
     hashSet->ddictPtrTable = newTable;
     hashSet->ddictPtrTableSize = newTableSize;
     hashSet->ddictPtrCount = 0;
-    for (i = 0; i < oldTableSize; ++i) {
+    for (i = 0; i < oldTableSize; ++i)
+    ZSTD_VERIF_LOOP(
+        __CPROVER_assigns(i, hashSet->ddictPtrCount, __CPROVER_object_whole(newTable))
+        __CPROVER_loop_invariant(i <= oldTableSize && hashSet->ddictPtrCount <= i
+                              && hashSet->ddictPtrTable == newTable && hashSet->ddictPtrTableSize == newTableSize)
+        __CPROVER_decreases(oldTableSize - i))
+    {
         if (oldTable[i] != NULL) {
             FORWARD_IF_ERROR(ZSTD_DDictHashSet_emplaceDDict(hashSet, oldTable[i]), "");
         }
@@ -157,7 +167,11 @@ static const ZSTD_DDict* ZSTD_DDictHashSet_getDDict(ZSTD_DDictHashSet* hashSet, 
     size_t idx = ZSTD_DDictHashSet_getIndex(hashSet, dictID);
     const size_t idxRangeMask = hashSet->ddictPtrTableSize - 1;
     DEBUGLOG(4, "Hashed index: for dictID: %u is %zu", dictID, idx);
-    for (;;) {
+    for (;;)
+    ZSTD_VERIF_LOOP(
+        __CPROVER_assigns(idx)
+        __CPROVER_loop_invariant(idx < hashSet->ddictPtrTableSize))
+    {
         size_t currDictID = ZSTD_getDictID_fromDDict(hashSet->ddictPtrTable[idx]);
         if (currDictID == dictID || currDictID == 0) {
             /* currDictID == 0 implies a NULL ddict entry */
